@@ -421,6 +421,9 @@ func (d *Driver) policyOpt(p *Policy) iscp.UpstreamOption {
 		return iscp.WithUpstreamFlushPolicyNone()
 	}
 	switch p.K {
+	case "default":
+		// no option at all: the library's own default policy (one package-level instance shared by every stream that does not choose)
+		return func(*iscp.UpstreamConfig) {}
 	case "interval":
 		return iscp.WithUpstreamFlushPolicyIntervalOnly(time.Duration(p.Ms) * time.Millisecond)
 	case "size":
